@@ -586,6 +586,10 @@ class Model:
         _, mode, arg, kk = op
         ln = len(self.text)
         lo = self.tok_prefix
+        if mode == "abs0":
+            # an absolute count that may lie inside a pending yymore() prefix: the characters
+            # of yytext after the first n go back, whichever token they came with
+            return max(0, min(arg, ln))
         if mode == "abs":
             n = arg
         elif mode == "back":
@@ -602,6 +606,9 @@ class Model:
         n = self.less_n(op)
         b = self.cur()
         back = self.text[n:]
+        if len(back) > b.pos or bytes(b.data[b.pos - len(back):b.pos]) != back:
+            # (the prefix was read from another source or has been overwritten by push-back)
+            raise OutOfDomain("yyless() into a yymore() prefix that is not in this buffer any more")
         b.pos -= len(back)
         self.ln_add(-back.count(b"\n"))
         self.text = self.text[:n]
